@@ -157,7 +157,9 @@ WRAP:
 			added = true
 			t = time.Date(t.Year(), t.Month(), t.Day(), t.Hour(), 0, 0, 0, loc)
 		}
-		t = t.Add(1 * time.Hour)
+		// Advance to the start of the next hour on the wall clock. This is one hour unless a DST change of a
+		// fraction of an hour (for example Australia/Lord_Howe) left t in the middle of an hour.
+		t = t.Add(time.Duration(60-t.Minute()) * time.Minute)
 
 		if t.Hour() == 0 {
 			goto WRAP
